@@ -17,6 +17,7 @@ import json
 import random
 import re
 import shutil
+import sys
 import time
 import traceback
 
@@ -810,6 +811,7 @@ def main(tier: str, seed: int) -> int:
         ns, ne, nseen = walk(v, book, start, svec, set(acts), depth, tb, rng, expand_if, cap)
         walks.append({"start": start, "acts": len(acts), "depth": depth, "states_expanded": ns, "edges": ne, "vectors_seen": nseen,
                       "t": round(time.time() - t0, 1)})
+        print(f"C08 walk {walks[-1]}", file=sys.stderr, flush=True)
     n_hist = 0
     if tier == "thorough":
         hists, sres = tlc_simulate(3000, 6, seed)
@@ -845,6 +847,7 @@ def main(tier: str, seed: int) -> int:
         obligations_of_reached_vectors=total_obl,
         verdict_tally=tally,
         walks=walks,
+        cpu_s=round(sum(__import__("os").times()[:4]), 1),   # own + children (workers, TLC): wall depends on machine load
         setter_call_cpu_ms={"median": int(1000 * times[len(times) // 2]) if times else 0, "p95": int(1000 * times[int(len(times) * 0.95)]) if times else 0},
         rule="one observation = one call of a public setter on a real model (pre-vector, request, outcome, post-vector, well-formedness) "
              "or one exact comparison f(m) vs f(f(m)) / m vs undo(f(m)); distinct = after merging identical observations from different histories; "
